@@ -65,12 +65,14 @@ static bool case_double_interrupt() {
     return true;
 }
 // a thread marked by thread_shutdown() must not block past the documented short bound (10 ms), whatever it blocks in
-static volatile int s_phase = 0; static uint64_t s_plain_us, s_sem_us; static int s_plain_r, s_sem_r;
+static volatile int s_phase = 0; static uint64_t s_plain_us, s_sem_us, s_defer_us; static int s_plain_r, s_sem_r, s_defer_r;
+static void s_noop(void*) {}
 static photon::semaphore* s_sem;
 static void* s_worker(void*) {
     s_phase = 1;
     while (s_phase != 2) photon::thread_yield();              // main marks us in between
     uint64_t t0 = photon::__update_now(); s_plain_r = photon::thread_usleep(300 * 1000); s_plain_us = photon::__update_now() - t0;
+    t0 = photon::__update_now(); s_defer_r = photon::thread_usleep_defer(300 * 1000, &s_noop, nullptr); s_defer_us = photon::__update_now() - t0;
     t0 = photon::__update_now(); s_sem_r = s_sem->wait(1, 300 * 1000); s_sem_us = photon::__update_now() - t0;
     s_phase = 3; return 0;
 }
@@ -79,11 +81,30 @@ static int case_shutdown_bound() {      // 0 ok, 1 plain sleep uncapped, 2 wait-
     auto th = photon::thread_create(&s_worker, nullptr);
     while (s_phase != 1) photon::thread_yield();
     photon::thread_shutdown(th, true); s_phase = 2;
-    while (s_phase != 3) photon::thread_usleep(1000);
+    while (s_phase != 3) photon::thread_yield();      // stay runnable: with only the idler left, thread_usleep_defer() turns into thread_create + thread_usleep
     photon::vcpu_fini();
     if (s_plain_us > 250 * 1000) { why = "thread_usleep(300 ms) of a thread marked by thread_shutdown() blocked " + std::to_string(s_plain_us) + " us"; return 1; }
+    if (s_defer_us > 250 * 1000) { why = "thread_usleep_defer(300 ms) of a thread marked by thread_shutdown() blocked " + std::to_string(s_defer_us) + " us"; return 1; }
     if (s_sem_us > 250 * 1000) { why = "semaphore::wait(1, 300 ms) of a thread marked by thread_shutdown() blocked " + std::to_string(s_sem_us) + " us (returned " + std::to_string(s_sem_r) + "): the 10 ms cap is applied by thread_usleep() only, not by the sleep every wait queue uses"; return 2; }
     return 0;
+}
+// one pass of resume_threads() wakes EVERY sleeper whose deadline has passed (none of them is left for a later pass)
+static volatile int b_started = 0, b_done = 0;
+static void* b_worker(void*) { b_started = b_started + 1; photon::thread_usleep(3000); b_done = b_done + 1; return 0; }
+static bool case_resume_all_expired() {
+    photon::vcpu_init(); b_started = b_done = 0; const int NB = 300;
+    for (int i = 0; i < NB; ++i) photon::thread_create(&b_worker, nullptr);
+    while (b_started < NB) photon::thread_yield();
+    auto vcpu = CURRENT->get_vcpu(); uint64_t last = 0; size_t asleep = vcpu->sleepq.q.size();
+    for (auto t : vcpu->sleepq.q) if (t->ts_wakeup > last) last = t->ts_wakeup;
+    while (photon::__update_now() < last + 500) { }                  // no scheduling point: nobody is resumed meanwhile
+    uint64_t t = photon::now; int left = 0;
+    RunQ rq; resume_threads(vcpu, rq);
+    for (auto th : vcpu->sleepq.q) if (th->ts_wakeup <= t) ++left;
+    while (b_done < NB) photon::thread_usleep(1000);
+    photon::vcpu_fini();
+    if (left) { why = std::to_string(left) + " of " + std::to_string(asleep) + " sleepers whose deadline had passed were still in the sleep queue after one pass of resume_threads()"; return false; }
+    return true;
 }
 static bool is_known(const char* cls) { const char* k = getenv("VERIF_KNOWN"); return k && strstr(k, cls); }
 // an interrupt that arrives while the target is READY but NOT in a sleep or yield (here: created, not yet run) cut no sleep short:
@@ -121,6 +142,7 @@ int main(int argc, char** argv) {
     if (argc >= 3 && !strcmp(argv[1], "--replay")) {
         std::ifstream f(argv[2]); std::stringstream ss; ss << f.rdbuf(); std::string j = ss.str();
         if (j.find("shutdown") != std::string::npos || j.find("usleep/waitq") != std::string::npos) { int sb = case_shutdown_bound(); printf("%s %s\n", sb ? "REPRODUCED" : "NOT-REPRODUCED", why.c_str()); return 0; }
+        if (j.find("resume_all") != std::string::npos || j.find("resume_pass") != std::string::npos) { bool ok = case_resume_all_expired(); printf("%s %s\n", ok ? "NOT-REPRODUCED" : "REPRODUCED", why.c_str()); return 0; }
         if (j.find("stray_interrupt") != std::string::npos || j.find("prepare_usleep") != std::string::npos) { bool ok = case_stray_interrupt(); printf("%s %s\n", ok ? "NOT-REPRODUCED" : "REPRODUCED", why.c_str()); return 0; }
         if (j.find("double_interrupt") != std::string::npos) { bool ok = case_double_interrupt(); printf("%s %s\n", ok ? "NOT-REPRODUCED" : "REPRODUCED", why.c_str()); return 0; }
         if (j.find("yield") != std::string::npos) { bool ok = case_yield_then_sleep(); printf("%s %s\n", ok ? "NOT-REPRODUCED" : "REPRODUCED", why.c_str()); return 0; }
@@ -136,6 +158,7 @@ int main(int argc, char** argv) {
       if (sb == 1) { printf("CEX shutdown {\"kind\": \"shutdown_plain\", \"why\": \"%s\"}\n", why.c_str()); return 3; }
       if (sb == 2) { if (is_known("waitq_shutdown_uncapped")) printf("KNOWN waitq_shutdown_uncapped {\"kind\": \"shutdown_waitq\", \"why\": \"%s\"}\n", why.c_str());
                      else { printf("CEX waitq_shutdown_uncapped {\"kind\": \"shutdown_waitq\", \"why\": \"%s\"}\n", why.c_str()); return 3; } } }
+    ++cases; if (!case_resume_all_expired()) { printf("CEX resume_all {\"kind\": \"resume_all_expired\", \"why\": \"%s\"}\n", why.c_str()); return 3; }
     ++cases; if (!case_stray_interrupt()) { printf("CEX stray_interrupt {\"kind\": \"stray_interrupt\", \"why\": \"%s\"}\n", why.c_str()); return 3; }
     ++cases; if (!case_double_interrupt()) { printf("CEX interrupt {\"kind\": \"double_interrupt\", \"why\": \"%s\"}\n", why.c_str()); return 3; }
     ++cases; if (!case_yield_then_sleep()) { printf("CEX yield {\"kind\": \"yield_then_sleep\", \"why\": \"%s\"}\n", why.c_str()); return 3; }
